@@ -11,6 +11,8 @@
 #include <semaphore.h>
 #include <sched.h>
 #include <unistd.h>
+#include <sys/syscall.h>
+#include <linux/futex.h>
 #include <dlfcn.h>
 #include <cxxabi.h>
 #include <atomic>
@@ -44,6 +46,7 @@ struct Member {
     int idx = 0;
     pthread_t th{};
     sem_t sem;
+    int gate = 0;     // SIM_TSAN: futex word, 1 = may run
     bool thread_created = false;
     volatile int state = M_IDLE;
     const void* blocked_on = nullptr;
@@ -87,6 +90,24 @@ struct Global {
     int fr_pending = 0;
 };
 static Global G;
+
+// Handing the CPU from one team member to the next. In the sanitizer-free and ASan builds this is a semaphore. In the
+// TSan build it is a futex word handled by this (uninstrumented) file: ThreadSanitizer models neither, so the
+// hand-off creates NO happens-before edge, and the only edges TSan sees between team members are the ones OpenMP
+// itself guarantees (fork, join, critical, atomic, locks), annotated explicitly with __tsan_acquire/release. A
+// serialised, seeded, replayable schedule is thereby checked by TSan's vector clocks as if the members had really
+// run concurrently: two conflicting accesses of different members without OpenMP synchronisation between them are
+// reported wherever the schedule puts them, and the same seed reports them again.
+#ifdef SIM_TSAN
+static void gate_post(Member& m) { __atomic_store_n(&m.gate, 1, __ATOMIC_RELEASE); syscall(SYS_futex, &m.gate, FUTEX_WAKE_PRIVATE, 1, nullptr, nullptr, 0); }
+static void gate_wait(Member& m) { for (;;) { int one = 1; if (__atomic_compare_exchange_n(&m.gate, &one, 0, false, __ATOMIC_ACQUIRE, __ATOMIC_RELAXED)) return; syscall(SYS_futex, &m.gate, FUTEX_WAIT_PRIVATE, 0, nullptr, nullptr, 0); } }
+static const bool kCallbacksInRegion = false;     // harness monitors run on member threads would be reported as races of their own
+#else
+static void gate_post(Member& m) { sem_post(&m.sem); }
+static void gate_wait(Member& m) { sem_wait(&m.sem); }
+static const bool kCallbacksInRegion = true;
+#endif
+static char tok_fork, tok_join, tok_crit, tok_atomic;   // addresses standing for OpenMP's synchronisation objects (TSan annotations)
 
 static thread_local int tl_member = -1;     // index in the current outermost region, -1 = not a member
 static thread_local int tl_nest = 0;        // depth of nested (inlined, team of one) regions
@@ -216,15 +237,17 @@ static int pick_forced(int exclude) {
 static void record_switch(int next, int cause) {
     G.st.switches++;
     fnv(G.st.sched_hash, G.st.regions); fnv(G.st.sched_hash, G.reg.step); fnv(G.st.sched_hash, (uint64_t)next);
+#ifndef SIM_TSAN   // (operator new / memmove are intercepted even from this uninstrumented file: the trace would show up as a race of the simulator itself)
     if (G.tr.size() < 200000) G.tr.push_back({(uint32_t)G.st.regions, G.reg.step, next, cause});
+#endif
 }
 
 // hand the CPU to member `next`; returns when this member is scheduled again
 static void do_switch(int me, int next, int cause) {
     record_switch(next, cause);
     G.cur = next;
-    sem_post(&G.mem[next].sem);
-    sem_wait(&G.mem[me].sem);
+    gate_post(G.mem[next]);
+    gate_wait(G.mem[me]);
 }
 
 enum Cause { C_START = 0, C_FUNC, C_CRIT, C_ATOMIC, C_LOCK, C_SECTION, C_BLOCKED, C_FINISH, C_UNLOCK };
@@ -282,27 +305,29 @@ static void finish_member(int me) {
     }
     G.mem[me].state = M_FINISHED;
     if (r.finished == r.n) {           // master waits at the barrier
-        record_switch(0, C_FINISH); G.cur = 0; sem_post(&G.mem[0].sem); return;
+        record_switch(0, C_FINISH); G.cur = 0; gate_post(G.mem[0]); return;
     }
     int next = pick_forced(me);
     if (next < 0) {
         if (G.mem[0].state == M_AT_BARRIER) { G.st.deadlock = true; fatal_exit(78, "DEADLOCK"); }
         G.st.deadlock = true; fatal_exit(78, "DEADLOCK");
     }
-    record_switch(next, C_FINISH); G.cur = next; sem_post(&G.mem[next].sem);
+    record_switch(next, C_FINISH); G.cur = next; gate_post(G.mem[next]);
 }
 
 static void run_member_fn(int idx) {
     tl_member = idx;
+    TSAN_ACQ(&tok_fork);                  // fork: what the master did before the region happens before the member's body
     try { G.reg.fn(G.reg.data); }
     catch (...) { G.st.escaped_exception = true; }
+    TSAN_REL(&tok_join);                  // join: the member's body happens before what the master does after the region
     tl_member = -1;
 }
 
 static void* worker_main(void* arg) {
     Member* m = (Member*)arg;
     for (;;) {
-        sem_wait(&m->sem);
+        gate_wait(*m);
         if (G.cfg.free_running) {
             run_member_fn(m->idx);
             pthread_mutex_lock(&G.fr_mu); G.fr_pending--; pthread_cond_broadcast(&G.fr_cv); pthread_mutex_unlock(&G.fr_mu);
@@ -357,10 +382,11 @@ static void run_region(void (*fn)(void*), void* data, unsigned num_threads, unsi
     if ((uint64_t)n > G.st.max_team) G.st.max_team = n;
     if (G.region_cb && G.running && tl_quiet == 0) { tl_quiet++; G.region_cb(true, 0, n); tl_quiet--; }
 
+    if (n > 1) TSAN_REL(&tok_fork);
     if (G.cfg.free_running && n > 1) {
         for (int i = 0; i < n; i++) ensure_thread(i);
         pthread_mutex_lock(&G.fr_mu); G.fr_pending = n - 1; pthread_mutex_unlock(&G.fr_mu);
-        for (int i = 1; i < n; i++) sem_post(&G.mem[i].sem);
+        for (int i = 1; i < n; i++) gate_post(G.mem[i]);
         run_member_fn(0);
         pthread_mutex_lock(&G.fr_mu); while (G.fr_pending > 0) pthread_cond_wait(&G.fr_cv, &G.fr_mu); pthread_mutex_unlock(&G.fr_mu);
     } else if (n == 1) {
@@ -391,6 +417,7 @@ static void run_region(void (*fn)(void*), void* data, unsigned num_threads, unsi
         tl_member = -1;
         estimate_for((const void*)fn) = r.step;
     }
+    if (n > 1) TSAN_ACQ(&tok_join);
     int label = r.label; r.active = false;
     if (G.region_cb && G.running && tl_quiet == 0) { tl_quiet++; G.region_cb(false, label, n); tl_quiet--; }
 }
@@ -432,6 +459,8 @@ static void throw_fault(int t) {
     }
 }
 
+void throw_fault_for_test(int t) { throw_fault(t); }
+
 } // namespace sim
 
 using namespace sim;
@@ -457,7 +486,7 @@ __attribute__((no_instrument_function)) void __cyg_profile_func_enter(void* fn, 
             for (auto& f : G.faults)
                 if (!f.fired && f.phase == ph && f.call_index == G.st.phase_calls[ph]) { f.fired = true; G.st.faults_fired++; fire = f.exc_type; }
         }
-        if (G.phase_cb && (serial || !in_region)) { tl_quiet++; try { G.phase_cb(ph, true, in_region); } catch (...) { tl_quiet--; tl_in_hook--; throw; } tl_quiet--; }
+        if (G.phase_cb && ((serial && kCallbacksInRegion) || !in_region)) { tl_quiet++; try { G.phase_cb(ph, true, in_region); } catch (...) { tl_quiet--; tl_in_hook--; throw; } tl_quiet--; }
     }
     if (in_region && tl_nest == 0) {
         if (serial) sched_point(C_FUNC);
@@ -472,7 +501,7 @@ __attribute__((no_instrument_function)) void __cyg_profile_func_exit(void* fn, v
     int ph = lookup_phase(fn);
     if (!ph) return;
     bool in_region = tl_member >= 0 && G.reg.n > 1;
-    if (G.cfg.free_running && in_region) return;
+    if ((G.cfg.free_running || !kCallbacksInRegion) && in_region) return;
     tl_in_hook++; tl_quiet++;
     try { G.phase_cb(ph, false, in_region); } catch (...) {}
     tl_quiet--; tl_in_hook--;
@@ -510,20 +539,24 @@ void GOMP_critical_start(void) {
     if (tl_member < 0 || G.reg.n <= 1 || tl_nest > 0) return;
     if (G.cfg.free_running) { pthread_mutex_lock(&G.fr_crit); return; }
     serial_acquire(&G.reg.crit_owner, &G.reg.crit_owner, C_CRIT, &G.st.blocked_crit);
+    TSAN_ACQ(&tok_crit);
 }
 void GOMP_critical_end(void) {
     if (tl_member < 0 || G.reg.n <= 1 || tl_nest > 0) return;
     if (G.cfg.free_running) { pthread_mutex_unlock(&G.fr_crit); return; }
+    TSAN_REL(&tok_crit);
     G.reg.crit_owner = -1; wake_blocked(&G.reg.crit_owner); sched_point(C_UNLOCK);
 }
 void GOMP_atomic_start(void) {
     if (tl_member < 0 || G.reg.n <= 1 || tl_nest > 0) return;
     if (G.cfg.free_running) { pthread_mutex_lock(&G.fr_atomic); return; }
     serial_acquire(&G.reg.atomic_owner, &G.reg.atomic_owner, C_ATOMIC, &G.st.blocked_crit);
+    TSAN_ACQ(&tok_atomic);
 }
 void GOMP_atomic_end(void) {
     if (tl_member < 0 || G.reg.n <= 1 || tl_nest > 0) return;
     if (G.cfg.free_running) { pthread_mutex_unlock(&G.fr_atomic); return; }
+    TSAN_REL(&tok_atomic);
     G.reg.atomic_owner = -1; wake_blocked(&G.reg.atomic_owner);
 }
 
@@ -547,10 +580,12 @@ void omp_set_lock(void* l) {
     if (*w < 0 || *w > G.reg.n) { G.st.lock_garbage++; *w = 0; }
     while (*w != 0 && *w != tl_member + 1) { G.st.blocked_lock++; block_on(l); if (*w < 0 || *w > G.reg.n) { G.st.lock_garbage++; *w = 0; } }
     *w = tl_member + 1;
+    TSAN_ACQ(l);
 }
 void omp_unset_lock(void* l) {
     int* w = (int*)l;
     if (G.cfg.free_running && G.running) { TSAN_REL(l); __atomic_store_n(w, 0, __ATOMIC_RELEASE); return; }
+    if (!(tl_member < 0 || G.reg.n <= 1 || tl_nest > 0)) TSAN_REL(l);
     *w = 0;
     if (tl_member < 0 || G.reg.n <= 1 || tl_nest > 0) return;
     wake_blocked(l);
@@ -565,7 +600,7 @@ void srand(unsigned s) { G.rand_state = s; }
 // sanitizer defaults: classify sanitizer hits by exit code, no leak reports
 __attribute__((used, no_instrument_function)) const char* __asan_default_options() { return "exitcode=77:detect_leaks=0:abort_on_error=0:handle_abort=1:allocator_may_return_null=1:max_malloc_fill_size=268435456"; }
 __attribute__((used, no_instrument_function)) const char* __ubsan_default_options() { return "print_stacktrace=1:halt_on_error=1:exitcode=77"; }
-__attribute__((used, no_instrument_function)) const char* __tsan_default_options() { return "exitcode=0:halt_on_error=0:report_signal_unsafe=0:history_size=4"; }
+__attribute__((used, no_instrument_function)) const char* __tsan_default_options() { return "exitcode=0:halt_on_error=0:report_signal_unsafe=0:history_size=6"; }
 } // extern "C"
 
 // ------------------------------------------------------------------------------------
